@@ -20,7 +20,7 @@
    * error values: VcfNotSortedError, invalid contig on fetch, the TypeError of sorted() on mixed None/int
      phase-set ids, the `assert split_left <= split_right`, the `assert phased+unphased+singletons ==
      heterozygous` of DetailedStats.print, statistics.median([]) — all are `None`/error constructors. *)
-From Coq Require Import ZArith List Bool Arith.
+From Coq Require Import ZArith List Bool Arith Sorted.
 Import ListNotations.
 Open Scope Z_scope.
 
@@ -119,6 +119,16 @@ Fixpoint read_rows (R : rules) (only_snvs : bool) (prev : option Z) (recs : list
   end.
 
 (* ------------------------------------------------------------------------------------------ *)
+(* python `sorted`: stable insertion sort; `before x y` = x must come before y                 *)
+Fixpoint insert_by {A} (before : A -> A -> bool) (x : A) (l : list A) : list A :=
+  match l with
+  | [] => [x]
+  | y :: l' => if before x y then x :: l else y :: insert_by before x l'
+  end.
+Definition sort_by {A} (before : A -> A -> bool) (l : list A) : list A :=
+  fold_left (fun acc x => insert_by before x acc) l [].
+
+(* ------------------------------------------------------------------------------------------ *)
 (* stats.py: PhasedBlock                                                                       *)
 Record var := mkVar { v_pos : Z; v_snv : bool }.
 Record pblock := mkPB { pb_vars : list var; pb_lm : Z; pb_rm : Z }.
@@ -142,12 +152,8 @@ Definition pb_split (b : pblock) (sl sr : Z) : pblock * pblock :=
 (* ------------------------------------------------------------------------------------------ *)
 (* stats.py: PhasingStats.get_nonoverlapping_blocks                                            *)
 (* sorted(..., key = leftmost position, reverse=True): descending, stable *)
-Fixpoint insert_desc (b : pblock) (l : list pblock) : list pblock :=
-  match l with
-  | [] => [b]
-  | y :: l' => if pb_lm y <? pb_lm b then b :: l else y :: insert_desc b l'
-  end.
-Definition sort_desc (l : list pblock) : list pblock := fold_left (fun acc b => insert_desc b acc) l [].
+Definition before_desc (b y : pblock) : bool := pb_lm y <? pb_lm b.
+Definition sort_desc (l : list pblock) : list pblock := sort_by before_desc l.
 
 Inductive nres := NOk (pieces : list pblock) | NOutOfFuel | NAssert.
 
@@ -205,12 +211,7 @@ Record dstats := mkD {
   d_vmin : Z; d_vmax : Z; d_vsum : Z; d_bmin : Z; d_bmax : Z; d_bsum : Z;
   d_het : Z; d_hetsnv : Z; d_phsnv : Z; d_n50 : option Z (* None = nan *) }.
 
-Fixpoint insert_asc (x : Z) (l : list Z) : list Z :=
-  match l with
-  | [] => [x]
-  | y :: l' => if x <? y then x :: l else y :: insert_asc x l'
-  end.
-Definition sort_asc (l : list Z) : list Z := fold_left (fun acc x => insert_asc x acc) l [].
+Definition sort_asc (l : list Z) : list Z := sort_by Z.ltb l.
 Definition zsum (l : list Z) : Z := fold_right Z.add 0 l.
 
 (* n50(lengths, target): lengths sorted descending = reverse of ascending *)
@@ -314,13 +315,8 @@ Definition key_ltb (a b : key) : bool :=
   | Some x, Some y => x <? y
   | _, _ => false
   end.
-Fixpoint insert_key (e : key * pblock) (l : list (key * pblock)) : list (key * pblock) :=
-  match l with
-  | [] => [e]
-  | y :: l' => if key_ltb (fst e) (fst y) then e :: l else y :: insert_key e l'
-  end.
-Definition sort_keys (d : list (key * pblock)) : list (key * pblock) :=
-  fold_left (fun acc e => insert_key e acc) d [].
+Definition before_key (e y : key * pblock) : bool := key_ltb (fst e) (fst y).
+Definition sort_keys (d : list (key * pblock)) : list (key * pblock) := sort_by before_key d.
 Definition is_nonek (k : key) : bool := match k with None => true | Some _ => false end.
 Definition mixed_keys (d : list (key * pblock)) : bool :=
   existsb (fun kb => is_nonek (fst kb)) d && existsb (fun kb => negb (is_nonek (fst kb))) d.
@@ -612,3 +608,24 @@ Definition l1_run (only_snvs : bool) (groups : list (Z * list vrec)) (given : li
   end &&
   forallb (fun l => zmem (fst l) (map fst (o_rows out))) (o_blocklist out) &&
   forallb (fun l => zmem (fst l) (map fst (o_rows out))) (o_gtf out).
+
+(* shape of one correspondence case written by harness/props/C12.py:
+   ((only_snvs, indexed), header, groups, given, output of the implementation (None = aborted)) *)
+Definition case_t : Type :=
+  ((bool * bool) * list (Z * option Z) * list (Z * list vrec) * list Z * option output)%type.
+
+(* ========================================================================================== *)
+(* Prop-level vocabulary of the theorems in props/C12.v                                       *)
+(* ========================================================================================== *)
+(* a well-formed block: non-empty, leftmost / rightmost are positions of members and bound all members *)
+Definition pb_wf (b : pblock) : Prop :=
+  pb_vars b <> [] /\ In (pb_lm b) (map v_pos (pb_vars b)) /\ In (pb_rm b) (map v_pos (pb_vars b)) /\
+  Forall (fun v => pb_lm b <= v_pos v <= pb_rm b) (pb_vars b).
+Inductive subseq {A : Type} : list A -> list A -> Prop :=
+| ss_nil : forall l, subseq [] l
+| ss_cons : forall x a b, subseq a b -> subseq (x :: a) (x :: b)
+| ss_skip : forall x a b, subseq a b -> subseq a (x :: b).
+(* positions of the considered (biallelic, SNV under --only-snvs) records are non-decreasing:
+   exactly the condition under which VcfReader accepts the chromosome *)
+Definition sorted_recs (only_snvs : bool) (recs : list vrec) : Prop :=
+  StronglySorted Z.le (map r_pos (filter (eligible only_snvs) recs)).
